@@ -64,7 +64,8 @@ def make_faulty_problem(inner, plan, phase_of=None):
 
         def _fire(self, comp, x):
             ph = phase_of() if phase_of is not None else None
-            self.fired.append((comp, self.total - 1, ph, np.array(x, copy=True)))
+            # (component, overall index, phase, argument, index within this component)
+            self.fired.append((comp, self.total - 1, ph, np.array(x, copy=True), self.count[comp] - 1))
 
         def obj(self, x):
             val = inner.obj(x)
